@@ -67,7 +67,7 @@ from hypothesis.extra import numpy as hnp
 from .. import gen, ref
 from ..core import Clause, Out, Property
 from ..env import L
-from ..lib import F, Q, ahash
+from ..lib import F, Q, ahash, case_flag
 
 U_ = ref.U
 C_UNIT = 1000.0
@@ -254,7 +254,13 @@ def check_eigen(A, out, lam):
     Aq = Q(A)
     h0 = ahash(Aq)
     E = L.eigen
-    ok, r = out.call(s, _quiet, E.quaternion_eigendecomposition, Aq)
+    vb = case_flag(A, 4)          # the verbose path must return the same decomposition
+    if vb:
+        s = "quaternion_eigendecomposition(verbose=True)"
+        out.label("verbose=True")
+        ok, r = out.call(s, _quiet, E.quaternion_eigendecomposition, Aq, verbose=True)
+    else:
+        ok, r = out.call(s, _quiet, E.quaternion_eigendecomposition, Aq)
     if not ok:
         return
     if not out.true(f"{s}:returns (eigenvalues, eigenvectors)", isinstance(r, tuple) and len(r) == 2,
